@@ -6,7 +6,7 @@ CONSTANTS
   NCodes = 0
   MaxIp = 0
   MaxArgs = 0
-  NMarks = 64
+  NMarks = 0
   MaxFresh = 0
   Ghost = FALSE
   Defects = {}
